@@ -99,6 +99,30 @@ def r1(ctx):
               "length equal and prefix equal", key="C02.R1:prefix_is_same")
 
 
+def r1_whole_prefix(ctx):
+    """exact match means: the stored prefix and the queried prefix are equal as given - no masking to the length (10.0.0.1/8 and
+    10.0.0.0/8 are two records; callbacks and removals name the spelling that was added)"""
+    pdb = ctx.pdb
+    for fname, qarg in (("trie_lookup_exact", 1), ("prefix_is_same", 1)):
+        fn = pdb.fn(fname)
+        ctx.touch(fn)
+        for c in fn.calls("lrtr_ip_addr_equal"):
+            srcs = []
+            for a in c.args[:2]:
+                e = vf.expr(fn, a)
+                r = vf.root_of(e)
+                src = e
+                if isinstance(r, tuple) and r[0] == "alloca":
+                    cps = [m for m in fn.calls() if (m.callee or "").startswith("llvm.memcpy") and vf.root_of(vf.expr(fn, m.args[0])) == r and fn.dom(m, c)]
+                    src = vf.expr(fn, cps[-1].args[1]) if cps else e
+                srcs.append(src)
+            node_side = [x for x in srcs if x[0] == "fld" and x[2] == "trie_node.prefix"]
+            query_side = [x for x in srcs if x == ("arg", qarg)]
+            ctx.check(len(node_side) == 1 and len(query_side) == 1, "C02.R1", "%s:compares-whole-prefixes" % fname, c.loc(),
+                      "lrtr_ip_addr_equal(%s, %s): the node's stored prefix and the queried prefix themselves" % tuple(vf.show(x)[:50] for x in srcs),
+                      key="C02.R1:%s:whole" % fname)
+
+
 def r1_words(ctx):
     """address equality looks at the whole address: one differing 32-bit word, the version tag, makes two prefixes different"""
     pdb = ctx.pdb
@@ -731,6 +755,7 @@ def r5(ctx):
 def check(ctx):
     retsets = flow.return_sets(ctx.pdb)
     r1(ctx)
+    r1_whole_prefix(ctx)
     r1_words(ctx)
     r2(ctx, retsets)
     r2_shift(ctx)
